@@ -7,7 +7,8 @@ from numlib import allclose, close, fl, patched
 from vlib.par import pmap
 from vlib.tlc import MachineryError
 
-UNDECIDED = ["planck / planck_wavelength / planck_wavenumber (positivity, monotonicity, limits) and radiance2planckTb",
+UNDECIDED = ["planck: positivity, monotonicity in T, the Rayleigh-Jeans bound and limit, and radiance2planckTb inverting it (exp/log); "
+             "decided for planck*: the Jacobian relation between the three forms and the broadcast shape of every combination",
              "snell / fresnel at angles whose sine and cosine are not both rational, and for complex n2 at oblique incidence"]
 
 
@@ -113,6 +114,44 @@ def replay(col, case):
         if not (allclose(b, spec, 1e-11) and allclose(g2, fg, 1e-11) and allclose(e, spec, 1e-11) and allclose(g4, fg, 1e-11)):
             col.violation("density-converters-not-inverse", dict(rep))
     col.nontrivial.add(json.dumps([case["c"], case["k"], case["fg"]]))
+
+
+def replay_planck_forms(col, cases):
+    """The three spellings of the Planck function describe ONE spectrum: the Jacobian factors f^2/c and c between them are
+    the rational laws of EmUnitsProps (RjLaws / DensityLaws); here both sides are evaluated by the real functions, for
+    scalars, arrays and every broadcast combination of frequency and temperature (the result has the broadcast shape)."""
+    import typhon.constants as C
+    from typhon.physics import em
+    c = C.speed_of_light
+    fs = sorted({fl(f) * 1e10 for case in cases for f in case["fg"]})
+    f1 = np.array(fs)
+    T1 = np.array([2.7, 77.0, 300.0, 6000.0])
+    combos = [("scalar-scalar", f1[2], T1[2]), ("array-scalar", f1, T1[2]), ("scalar-array", f1[1], T1),
+              ("same-shape", f1[:4], T1), ("column-row", f1[:, None], T1[None, :]), ("row-column", f1[None, :], T1[:, None]),
+              ("1d-against-2d", f1, np.tile(T1[:, None], (1, len(f1)))), ("2d-against-1d", np.tile(f1[None, :], (3, 1)), 250.0 + np.arange(len(f1)))]
+    for label, f, T in combos:
+        rep = {"abstract": {"combination": label, "f_shape": list(np.shape(f)), "T_shape": list(np.shape(T))}}
+        want_shape = np.broadcast(f, T).shape
+        try:
+            keep = [np.array(f, copy=True), np.array(T, copy=True)]
+            B = np.asarray(em.planck(f, T))
+            Bl = np.asarray(em.planck_wavelength(c / np.asarray(f), T))
+            Bn = np.asarray(em.planck_wavenumber(np.asarray(f) / c, T))
+            Tb = np.asarray(em.radiance2planckTb(f, B))
+        except Exception as ex:
+            col.violation("planck-raises-%s-%s" % (type(ex).__name__, label), dict(rep, observed=repr(ex)[:200]))
+            continue
+        col.count(3)
+        if not (np.array_equal(keep[0], np.asarray(f)) and np.array_equal(keep[1], np.asarray(T))):
+            col.violation("planck-overwrites-input-" + label, rep)
+        if B.shape != want_shape or Bl.shape != want_shape or Bn.shape != want_shape or Tb.shape != want_shape:
+            col.violation("planck-wrong-shape-" + label, dict(rep, expected=list(want_shape), observed=[list(B.shape), list(Bl.shape), list(Bn.shape)]))
+            continue
+        ff = np.broadcast_to(np.asarray(f, dtype=float), want_shape)
+        if not np.all(np.abs(Bl - B * ff ** 2 / c) <= 1e-12 * np.abs(Bl)) or not np.all(np.abs(Bn - c * B) <= 1e-12 * np.abs(Bn)):
+            col.violation("planck-forms-disagree-" + label, dict(rep, observed={"wavelength_form": Bl.ravel()[:3].tolist(),
+                                                                                 "frequency_form_times_f2_over_c": (B * ff ** 2 / c).ravel()[:3].tolist()}))
+    col.nontrivial.add("planck-forms")
 
 
 def theta_of(s1):
@@ -268,6 +307,7 @@ def run(ctx):
     ctx.traces += len(cases)
     ctx.sample({k: cases[0][k] for k in ("c", "k", "fg", "f2l", "rj", "hz2m")})
     big = ctx.tier != "quick"
+    pmap(ctx, replay_planck_forms, [cases], procs=1)
     res = ctx.tlc(d, "SnellProps", "MCSnellBig.cfg" if big else "MCSnell.cfg", workers=1, timeout=1500)
     scases = list(res.tagged("CASE"))
     if len(scases) != (26 * 26 * 20 if big else 968) or not any(c["reflected"] for c in scases) or sum(1 for c in scases if c["brewster"] and c["hasp2"]) < 4:
